@@ -110,3 +110,25 @@ T32_SYS = [('msr', '11110011100rnnnn1000mmmm00000000'), ('mrs', '11110011111r111
 T32_SYS = [(n, p) for n, p in T32_SYS if len(p) == 32]
 T32_SYS.append(('subs_pc_lr', '111100111101111010001111iiiiiiii'))
 GOOD_MODES = [16, 17, 18, 19, 22, 23, 27, 31]
+
+# multiply / divide / saturating / SIMD / bit-field / extend / reverse
+ARM_MEDIA = [('mul', 'cccc0000ooosddddaaaammmm1001nnnn'), ('hmul', 'cccc00010oo0ddddaaaammmm1yx0nnnn'),
+             ('qarith', 'cccc00010oo0nnnndddd00000101mmmm'), ('clz', 'cccc000101101111dddd11110001mmmm'),
+             ('par', 'cccc01100pppnnnndddd1111ooo1mmmm'), ('pkh', 'cccc01101000nnnnddddiiiiit01mmmm'),
+             ('sel', 'cccc01101000nnnndddd11111011mmmm'), ('ssat', 'cccc0110101sssssddddiiiiih01nnnn'),
+             ('usat', 'cccc0110111sssssddddiiiiih01nnnn'), ('ssat16', 'cccc01101010ssssdddd11110011nnnn'),
+             ('usat16', 'cccc01101110ssssdddd11110011nnnn'), ('ext', 'cccc01101uwwnnnnddddrr000111mmmm'),
+             ('rev', 'cccc011010111111dddd11110011mmmm'), ('rev16', 'cccc011010111111dddd11111011mmmm'),
+             ('rbit', 'cccc011011111111dddd11110011mmmm'), ('revsh', 'cccc011011111111dddd11111011mmmm'),
+             ('dualmul', 'cccc01110ooossssaaaammmmoox1nnnn'), ('usad8', 'cccc01111000ddddaaaammmm0001nnnn'),
+             ('sbfx', 'cccc0111101wwwwwddddlllll101nnnn'), ('ubfx', 'cccc0111111wwwwwddddlllll101nnnn'),
+             ('bfi', 'cccc0111110wwwwwddddlllll001nnnn')]
+T16_MEDIA = [('mul', '0100001101nnnddd'), ('ext', '10110010oommmddd'), ('rev', '10111010oommmddd')]
+T32_MEDIA = [('shiftreg', '111110100ooosnnn1111dddd0000mmmm'), ('ext', '111110100ooonnnn1111dddd10rrmmmm'),
+             ('par', '111110101ooonnnn1111dddd0uppmmmm'), ('misc', '1111101010oonnnn1111dddd10ppmmmm'),
+             ('mul', '111110110ooonnnnaaaadddd00ppmmmm'), ('long', '111110111ooonnnnllllhhhhppppmmmm'),
+             ('satbf', '11110011ooo0nnnn0iiiddddii0sssss'), ('pkh', '111010101100nnnn0iiiddddiit0mmmm')]
+for _n, _p in ARM_MEDIA + T32_MEDIA:
+    assert len(_p) == 32, (_n, len(_p))
+for _n, _p in T16_MEDIA:
+    assert len(_p) == 16, (_n, len(_p))
